@@ -62,6 +62,35 @@ func c05Nat(s string) (uint64, bool) {
 	return v, err == nil
 }
 
+// a timestamp: any uint64 (the scheduler's last round uses math.MaxUint64 as its end time)
+func c05U64(s string) (uint64, bool) {
+	if s == "" || len(s) > 20 {
+		return 0, false
+	}
+	for _, c := range s {
+		if c < '0' || c > '9' {
+			return 0, false
+		}
+	}
+	v, err := strconv.ParseUint(s, 10, 64)
+	return v, err == nil
+}
+
+func c05U64List(s string) ([]uint64, bool) {
+	if s == "" {
+		return []uint64{}, true
+	}
+	var out []uint64
+	for _, t := range strings.Split(s, ",") {
+		v, ok := c05U64(t)
+		if !ok {
+			return nil, false
+		}
+		out = append(out, v)
+	}
+	return out, true
+}
+
 func c05NatList(s string) ([]uint64, bool) {
 	if s == "" {
 		return []uint64{}, true
@@ -92,9 +121,9 @@ func c05ParseBlock(s string) (processor.VerifC05Block, bool) {
 	if len(f) != 3 {
 		return processor.VerifC05Block{}, false
 	}
-	l, ok1 := c05Nat(f[0])
-	h, ok2 := c05Nat(f[1])
-	ts, ok3 := c05NatList(f[2])
+	l, ok1 := c05U64(f[0])
+	h, ok2 := c05U64(f[1])
+	ts, ok3 := c05U64List(f[2])
 	if !ok1 || !ok2 || !ok3 {
 		return processor.VerifC05Block{}, false
 	}
@@ -115,8 +144,8 @@ func c05ParseSegs(s string) ([]processor.VerifC05Seg, bool) {
 		if len(rg) != 2 {
 			return nil, false
 		}
-		a, ok1 := c05Nat(rg[0])
-		b, ok2 := c05Nat(rg[1])
+		a, ok1 := c05U64(rg[0])
+		b, ok2 := c05U64(rg[1])
 		if !ok1 || !ok2 {
 			return nil, false
 		}
@@ -543,6 +572,11 @@ func genC05Sched(r *rand.Rand, n int, tier string) []string {
 		"sched rl 2 0-5=0:5:1,5/2-9=2:9:2,9", // oldest-first: before the repair (lastBlocks) records stayed in unsentRRCs, no EOF
 		"sched rf 2 5-8=5:8:5,8;2:8:2,8",     // a block that reaches past the range its segment advertises: the same, newest-first
 		"sched rl 4 0-8=8:8:8;0:0:0,0,0,11",  // a record outside its block's range, oldest-first
+		// the end time of the last round: 0 / math.MaxUint64 lets every uint64 timestamp through
+		"sched rl 2 0-5=0:5:1,5/2-18446744073709551615=2:18446744073709551615:2,18446744073709551615",
+		"sched rl 2 0-5=0:5:1,5/2-18446744073709551614=2:18446744073709551614:2,9223372036854775808",
+		"sched rf 2 18446744073709551610-18446744073709551615=18446744073709551610:18446744073709551615:18446744073709551615,18446744073709551610;0:18446744073709551615:0",
+		"sched rf 1 0-18446744073709551616=",
 		"sched rf 2 0-10=0:10:1,5,10;3:7:3,7/2-9=2:9:2,9",
 		"sched rf 1 0-10=0:10:2;5:9:5,9",
 		"sched rf 4 3-3=3:3:3,3,3;3:3:3/3-3=3:3:3",
